@@ -29,4 +29,5 @@ _Bool nondet_bool(void);
 unsigned long nondet_ulong(void);
 unsigned nondet_uint(void);
 int nondet_int(void);
+void* nondet_ptr(void);
 #endif
